@@ -12,6 +12,7 @@ import (
 	"bufio"
 	"encoding/binary"
 	"fmt"
+	"io"
 	"os"
 	"strconv"
 	"strings"
@@ -112,10 +113,13 @@ func LoadSTL(path string) ([]*sdf.Triangle3, error) {
 
 	// read header, get expected binary size
 	header := STLHeader{}
-	if err := binary.Read(file, binary.LittleEndian, &header); err != nil {
+	expectedSize := int64(-1)
+	if err := binary.Read(file, binary.LittleEndian, &header); err == nil {
+		expectedSize = int64(header.Count)*50 + 84
+	} else if err != io.EOF && err != io.ErrUnexpectedEOF {
 		return nil, err
 	}
-	expectedSize := int64(header.Count)*50 + 84
+	// a file shorter than the binary header can still be an ascii stl
 
 	// rewind to start of file
 	_, err = file.Seek(0, 0)
